@@ -190,11 +190,13 @@ public:
 
 	bool emptyQueue() const
 	{
+		EVENTPP_VERIF_POINT("q.empty");
 		return queueList.empty() && (queueEmptyCounter.load(std::memory_order_acquire) == 0);
 	}
 	
 	void clearEvents()
 	{
+		EVENTPP_VERIF_POINT("q.empty");
 		if(! queueList.empty()) {
 			BufferedItemList tempList;
 
@@ -216,6 +218,7 @@ public:
 
 	bool process()
 	{
+		EVENTPP_VERIF_POINT("q.empty");
 		if(! queueList.empty()) {
 			BufferedItemList tempList;
 
@@ -249,6 +252,7 @@ public:
 
 	bool processOne()
 	{
+		EVENTPP_VERIF_POINT("q.empty");
 		if(! queueList.empty()) {
 			BufferedItemList tempList;
 
@@ -284,6 +288,7 @@ public:
 	template <typename Predictor>
 	bool processIf(Predictor && predictor)
 	{
+		EVENTPP_VERIF_POINT("q.empty");
 		if(! queueList.empty()) {
 			BufferedItemList tempList;
 			BufferedItemList idleList;
@@ -339,6 +344,7 @@ public:
 	template <typename Predictor>
 	bool processUntil(Predictor && predictor)
 	{
+		EVENTPP_VERIF_POINT("q.empty");
 		if(! queueList.empty()) {
 			BufferedItemList tempList;
 			BufferedItemList idleList;
@@ -422,6 +428,7 @@ public:
 
 	bool peekEvent(QueuedEvent * queuedEvent)
 	{
+		EVENTPP_VERIF_POINT("q.empty");
 		if(! queueList.empty()) {
 			std::lock_guard<Mutex> queueListLock(queueListMutex);
 			
@@ -436,6 +443,7 @@ public:
 
 	bool takeEvent(QueuedEvent * queuedEvent)
 	{
+		EVENTPP_VERIF_POINT("q.empty");
 		if(! queueList.empty()) {
 			BufferedItemList tempList;
 
